@@ -3,6 +3,7 @@
 package verifsim
 
 import (
+	"encoding/json"
 	"fmt"
 	"net/url"
 	"sort"
@@ -516,6 +517,22 @@ func checkHookRecords(r *Run, u *UISession, tn *Town) {
 	// links that hostile bodies add (image and frame sources)
 	for _, extra := range []string{"https://media.example/i", "https://media.example/f", "https://media.example/u"} {
 		cands = append(cands, cand{extra, "*/*"})
+	}
+	// ... and the unquoted href that ends in what the scrub leaves of a hostile string
+	for _, hb := range hostileBits {
+		var viaJSON string
+		if json.Unmarshal([]byte(mustJSON(hb)), &viaJSON) != nil {
+			continue
+		}
+		rest := strings.Map(func(c rune) rune {
+			if c < 0x20 || c == 0x7f || (c >= 0x80 && c <= 0x9f) {
+				return -1
+			}
+			return c
+		}, viaJSON)
+		for _, h := range variants("https://media.example/u" + rest) {
+			cands = append(cands, cand{h, "*/*"})
+		}
 	}
 	hasURL := false
 	for i, a := range hook {
